@@ -109,8 +109,14 @@ pub mod h_gone;
 pub mod h_modes;
 #[cfg(any(all(kani, feature = "k_q"), all(not(kani), feature = "k_native")))]
 pub mod h_attach;
+#[cfg(any(all(kani, feature = "k_q"), all(not(kani), feature = "k_native")))]
+pub mod h_recv;
+#[cfg(any(all(kani, feature = "k_q", feature = "bigfd"), all(not(kani), feature = "k_native")))]
+pub mod h_many;
 #[cfg(any(all(kani, feature = "k_rec"), all(not(kani), feature = "k_native")))]
 pub mod h_send;
+#[cfg(any(all(kani, feature = "k_rec", feature = "bigfd"), all(not(kani), feature = "k_native")))]
+pub mod h_sendmany;
 
 #[cfg(all(not(kani), feature = "k_native"))]
 pub fn lookup(name: &str) -> Option<fn()> {
@@ -119,6 +125,9 @@ pub fn lookup(name: &str) -> Option<fn()> {
         .or_else(|| h_gone::lookup(name))
         .or_else(|| h_modes::lookup(name))
         .or_else(|| h_attach::lookup(name))
+        .or_else(|| h_recv::lookup(name))
+        .or_else(|| h_many::lookup(name))
+        .or_else(|| h_sendmany::lookup(name))
 }
 
 /// compiled once per feature set to warm the dependency cache (vlib/kanirun.py: seed_target)
